@@ -5,6 +5,7 @@ import OpusProofs.DecSkelRanges
 import OpusProofs.DecSkelShift
 import OpusProofs.CeltIdx
 import OpusProofs.CeltIdxCalls
+import OpusProofs.DecSkelMsDur
 /-
   Property C01 — "Decoding is total and memory-safe for arbitrary packets and call histories".
 
@@ -588,5 +589,39 @@ example : Frame.Legal ⟨960, 3, 2, 2, 6, 8⟩ ∧ (synthCalls ⟨960, 3, 2, 2, 
       some [⟨824, 1047⟩, ⟨0, 23⟩, ⟨0, 199⟩] ∧
     ((plcPitchCallsCh ⟨960, 3, 1, 1, 1, 1⟩ 720 false 0).head?.map (fun c => c.accs.map (·.ext))) =
       some [⟨0, 1047⟩, ⟨0, 23⟩, ⟨0, 1023⟩] := by decide
+
+/-! ## Duration of a multistream decode -/
+
+/-- **msDecodeFull_duration.**  A packet is present (`0 < len ≤` buffer), `decode_fec = 0`, the validation pass
+    `opus_multistream_packet_validate` (C10's model `Opus.Layout.msPacketValidate`, for which C10 proves
+    `ms_packet_structure`: the bytes are `n` serialised RFC-valid packets of `k` samples each) reports `k` samples on
+    the first `len` bytes, and `0 < k ≤ frame_size`.  Then for every layout / mapping, every set of stream states
+    satisfying the decoder invariant (hence after every history) and every DSP oracle behaviour within the contracts,
+    `opus_multistream_decode_native` with the REAL per-stream calls returns exactly `k` — never an error —, and every
+    stream's `last_packet_duration` is `k` afterwards.  (With it `OpusProps.EndToEndMs.ms_encode_decode_duration` composes
+    C10's `ms_encode_packet_structure_skel` with this decoder.) -/
+theorem msDecodeFull_duration (os : Nat → Oracle) (hos : ∀ s, OracleOk (os s)) (l : Layout.ChannelLayout) (hl : 1 ≤ l.nbStreams)
+    (Fs : Int) (hFs : FsOk Fs) (sts : List DecState) (hsts : ∀ st ∈ sts, DecInv st ∧ st.Fs = Fs) (hn : sts.length = l.nbStreams)
+    (bs : Bytes) (hb : BytesOk bs) (len frame_size : Int) (hlen : 0 < len ∧ len ≤ bs.length) (sc : Bool) (k : Nat)
+    (hval : Layout.msPacketValidate (bs.take len.toNat) l.nbStreams Fs.toNat = .ok k) (hk : 0 < k ∧ (k : Int) ≤ frame_size) :
+    (msDecodeFull os l Fs sts bs len frame_size 0 sc).ret = .ret (k : Int) ∧
+    (msDecodeFull os l Fs sts bs len frame_size 0 sc).sts.length = l.nbStreams ∧
+    ∀ st ∈ (msDecodeFull os l Fs sts bs len frame_size 0 sc).sts, st.last_packet_duration = (k : Int) :=
+  msDecodeFull_duration_spec hos l hl Fs hFs sts hsts hn bs hb len frame_size hlen sc k hval hk
+
+/-- Non-vacuity: two streams at 48 kHz, the packet `F8 02 07 07 | FC 09` (a self-delimited 20 ms CELT packet with one
+    2-byte frame, then a standard-framing one) validates to 960 samples; with freshly initialised stream decoders and
+    a 960-sample buffer the theorem applies: the call returns 960. -/
+example : ∃ st1 st2, init 48000 2 = some st1 ∧ init 48000 1 = some st2 ∧
+    (msDecodeFull (fun _ => exOracle) ⟨3, 2, 1, [0, 1, 2]⟩ 48000 [st1, st2] [0xF8, 2, 7, 7, 0xFC, 9] 6 960 0 false).ret = .ret 960 := by
+  refine ⟨_, _, rfl, rfl, ?_⟩
+  have h := msDecodeFull_duration (fun _ => exOracle) (fun _ => exOracle_ok) ⟨3, 2, 1, [0, 1, 2]⟩ (by decide) 48000 (by decide)
+    [_, _] (fun x hx => by
+      simp only [List.mem_cons, List.mem_nil_iff, or_false] at hx
+      rcases hx with rfl | rfl
+      · exact ⟨init_inv (fs := 48000) (ch := 2) rfl, rfl⟩
+      · exact ⟨init_inv (fs := 48000) (ch := 1) rfl, rfl⟩) rfl
+    [0xF8, 2, 7, 7, 0xFC, 9] (by decide) 6 960 (by decide) false 960 (by decide +kernel) (by decide)
+  exact h.1
 
 end OpusProps.C01
